@@ -150,6 +150,45 @@ Theorem C19_io_stream : forall ops, let p := io_run ops in
 Proof. exact io_stream. Qed.
 Print Assumptions C19_io_stream.
 
+(* FULL DUPLEX: one goroutine Reads a conn while another one Writes it (net.Conn allows that).  For EVERY
+   interleaving of the peer's data arriving, Reads of any size, and the two halves of Writes (WriteBytes / Flush):
+   every Read keeps its contract and returns exactly the next bytes the peer delivered (never bytes of our own
+   writes, never (0, nil)); the bytes handed to the peer are exactly the bytes of the Writes that returned
+   (len p, nil), in order, plus those of the Write in progress *)
+Theorem C19_io_duplex : forall evs, let d := dx_run false evs in
+  dx_ok d = true /\
+  dx_got d ++ concat (slices (dx_recv d)) = dx_arrived d /\
+  dx_wire d ++ dx_sendbuf d = dx_written d ++ match dx_wpc d with Some p => p | None => [] end /\
+  (dx_wpc d = None -> dx_wire d = dx_written d).
+Proof. exact io_duplex. Qed.
+Print Assumptions C19_io_duplex.
+
+(* the frame property this rests on (and that the plugin checks against the source of copyRead /
+   copyWriteAndFlush / Flush on every run): Read does not touch the send side, Write not the receive side *)
+Theorem C19_io_read_frame : forall d lenp, let d' := dx_step false d (DxRead lenp) in
+  dx_sendbuf d' = dx_sendbuf d /\ dx_wire d' = dx_wire d /\ dx_wpc d' = dx_wpc d /\ dx_written d' = dx_written d.
+Proof. exact dx_read_frame. Qed.
+Print Assumptions C19_io_read_frame.
+
+Theorem C19_io_write_frame : forall d e, (exists p, e = DxWriteBytes p) \/ e = DxFlush -> let d' := dx_step false d e in
+  dx_recv d' = dx_recv d /\ dx_got d' = dx_got d /\ dx_arrived d' = dx_arrived d /\ dx_ok d' = dx_ok d.
+Proof. exact dx_write_frame. Qed.
+Print Assumptions C19_io_write_frame.
+
+(* without the frame property (VARIANT dx_step true: a Read that drains the receive buffer swaps recvBuf and
+   sendBuf) a Read that ends exactly at the end of the buffered data while a Write is between WriteBytes and
+   Flush breaks both directions: the Write returns (len p, nil) but nothing reaches the peer, and the next Read
+   returns the conn's OWN outgoing bytes *)
+Example C19_swap_on_drain_breaks_duplex :
+  let d := dx_run true [DxArrive [[1; 2]]; DxWriteBytes [7; 8; 9]; DxRead 2; DxFlush; DxRead 3] in
+  dx_written d = [7; 8; 9] /\ dx_wire d = [] /\ dx_arrived d = [1; 2] /\ dx_got d = [1; 2; 7; 8; 9].
+Proof. vm_compute. repeat split. Qed.
+
+Example C19_duplex_example :
+  let d := dx_run false [DxArrive [[1; 2]]; DxWriteBytes [7; 8; 9]; DxRead 2; DxFlush; DxRead 3; DxArrive [[3]]; DxRead 3] in
+  dx_written d = [7; 8; 9] /\ dx_wire d = [7; 8; 9] /\ dx_got d = [1; 2; 3] /\ dx_ok d = true.
+Proof. vm_compute. repeat split. Qed.
+
 (* non-vacuity: two sessions, backlog 1; one conn delivered and closed twice, one lost to closeCh and
    Closed by the accept goroutine, one received by listener.Close's drain; both sessions end *)
 Example C19_example_run :
